@@ -35,31 +35,31 @@ const hostAssume = "host callbacks (StateDB, CanTransfer/Transfer, GetHash, Aspe
 // Props is the table of the 20 given properties.
 var Props = map[string]*PropCfg{
 	"C01": {ID: "C01", E2: true, E1: true, Level: "proof",
-		Explanation: "Relational proof against the go-ethereum v1.12.0 source: EQ(d) for every paired declaration of vm, vm/runtime, core (reflexivity after ctx-erasure, or declared ghost-erasure for the Artela deltas), plus unary E1 obligations that the erased pieces are ghost.",
+		Explanation: "Relational proof against the go-ethereum v1.12.0 source: EQ(d) for every paired declaration of vm, vm/runtime, core (reflexivity after ctx-erasure, or declared ghost-erasure for the Artela deltas), plus the unary E1 obligation behind the transfer-wrapper erasure (TransferWithRecord performs the host transfer exactly once with its own arguments).",
 		Assumptions: []string{"standard opcodes and precompiles only; join points with no Aspect bound return {gas, nil} (aspect-core, external)", hostAssume}},
 	"C02": {ID: "C02", E2: true, E1: true, Level: "proof",
 		Explanation: "EQ obligations restricted to the gas path (gas tables, memory gas, charging sequence, frame functions) plus unary E1 gas postconditions on the frame functions.",
 		Assumptions: []string{"as C01"}},
-	"C03": {ID: "C03", E1: true, Syntactic: []string{"no-recover"}, Ground: []string{"journal-table"}, Level: "proof",
+	"C03": {ID: "C03", E1: true, Syntactic: []string{"no-recover", "immutable-fields"}, Ground: []string{"journal-table"}, Level: "proof",
 		Explanation: "Annotation-free safety sweep (slice/index bounds, nil dereference, division, type assertion, makeslice, explicit panic, library preconditions) over every Artela-specific function, under the instruction protocol / host preconditions stated as requires; bookkeeping postconditions.",
 		Assumptions: []string{hostAssume, "upstream-derived functions crash exactly where go-ethereum v1.12.0 does (C01 EQ); the reference is assumed crash-free on its domain"}},
 	"C04": {ID: "C04", E1: true, E2: true, Level: "proof", Explanation: "Ghost snapshot/dirty monitor on the five frame functions.", Assumptions: []string{"StateDB.RevertToSnapshot restores the state of the matching Snapshot (go-ethereum journal, trusted)", hostAssume}},
 	"C05": {ID: "C05", E1: true, Syntactic: []string{"jp-flag-writers"}, Level: "proof", Explanation: "Ghost event-trace monitor on (*EVM).Call: join-point protocol and message fields.", Assumptions: []string{hostAssume}},
 	"C06": {ID: "C06", E1: true, Level: "proof", Explanation: "Gas clauses on (*EVM).Call with abstract join-point results.", Assumptions: []string{"the Aspect runtime reports Gas <= the gas passed in (external, assumed)", hostAssume}},
-	"C07": {ID: "C07", E1: true, Syntactic: []string{"calltree-encapsulated"}, Level: "proof", Explanation: "Quantified well-formedness invariant of CallTree preserved by add/exit; Call/create open and close exactly one node.", Assumptions: []string{"count+1 does not wrap (2^64 calls)"}},
+	"C07": {ID: "C07", E1: true, Syntactic: []string{"calltree-encapsulated", "immutable-fields"}, Level: "proof", Explanation: "Quantified well-formedness invariant of CallTree preserved by add/exit; Call/create open and close exactly one node; the interpreter loop, every function of type executionFunc and the other frame functions restore cursor, depth and read-only flag (verified, mutual recursion = modular induction); read API against the table.", Assumptions: []string{"count+1 does not wrap (2^64 calls): explicit assume clause", "two postconditions of (*EVMInterpreter).Run are marked assumed: gas-monotone and the frame of five heaps read by the frame functions after the callee ran", "library calls inside upstream opcodes are over-approximated (listed under trusted_base); sync.Pool hands out an unshared Stack"}},
 	"C08": {ID: "C08", E1: true, E2: true, Level: "proof", Explanation: "Field and freshness clauses on CallTree.add/exit and the SaveCall/ExitCall sites of Call/create.", Assumptions: []string{hostAssume}},
 	"C09": {ID: "C09", E1: true, Level: "proof", Explanation: "Journal opcodes against the Solidity layout spec functions.", Assumptions: []string{"keccak256 is an uninterpreted function (only its argument is checked)", hostAssume}},
-	"C10": {ID: "C10", E1: true, E2: true, Level: "proof", Explanation: "Attribution clauses: Contract.Address() at every journal site, CurrentCallIndex, StorageChanges.append whole-view spec.", Assumptions: []string{hostAssume}},
+	"C10": {ID: "C10", E1: true, E2: true, Syntactic: []string{"immutable-fields"}, Level: "proof", Explanation: "Attribution clauses: Contract.Address() at every journal site, CurrentCallIndex, StorageChanges.append whole-view spec.", Assumptions: []string{hostAssume}},
 	"C11": {ID: "C11", E1: true, Level: "proof", Explanation: "Agreement between the flat (slot, offset, type) index and the name/index tree.", Assumptions: nil},
 	"C12": {ID: "C12", E1: true, Ground: []string{"journal-table"}, Level: "proof", Explanation: "Frame of the eight journal opcodes, constant dynamic gas closure, ground evaluation of the 12 instruction tables.", Assumptions: []string{hostAssume}},
 	"C13": {ID: "C13", E1: true, E2: true, Syntactic: []string{"transfer-only-via-record"}, Level: "proof", Explanation: "Event order of TransferWithRecord; package frame: Context.Transfer invoked only inside it.", Assumptions: []string{"balances < 2^256; the host transfer function does not re-enter the EVM"}},
 	"C14": {ID: "C14", E1: true, Ground: []string{"precompile-maps"}, Level: "proof", Explanation: "ABI decode spec of loadParamBytes, the three Run methods, clone attribution in Call.", Assumptions: []string{hostAssume}},
 	"C15": {ID: "C15", E1: true, E2: true, Ground: []string{"cancun-table"}, Level: "proof", Explanation: "MCOPY unary contracts (memmove spec, size, gas), EIP-1153 bodies EQ to upstream, ground evaluation of the Cancun table.", Assumptions: []string{"transient storage semantics is go-ethereum's StateDB (shared dependency)"}},
-	"C16": {ID: "C16", E1: true, Syntactic: []string{"package-frame", "nondeterminism-sources"}, Level: "proof", Explanation: "Canonical order of list-valued queries, nondeterminism-source sweep, package frame.", Assumptions: []string{"determinism of the host, StateDB and Aspect runtime"}},
-	"C17": {ID: "C17", E1: true, Syntactic: []string{"package-frame", "abort-atomic-only", "no-goroutines"}, Level: "proof", Explanation: "Ownership and poll lemmas only: instances share no mutable data; abort touched only atomically; jumps poll abort. No interleaving is explored.", Assumptions: []string{"Go memory model, sync.Pool, the StateDB and the djpm global are trusted; schedules not explored"}},
+	"C16": {ID: "C16", E1: true, Syntactic: []string{"package-frame", "nondeterminism-sources", "table-closures-capture-values"}, Level: "proof", Explanation: "Canonical order of list-valued queries, nondeterminism-source sweep, package frame.", Assumptions: []string{"determinism of the host, StateDB and Aspect runtime"}},
+	"C17": {ID: "C17", E1: true, Syntactic: []string{"package-frame", "abort-atomic-only", "no-goroutines", "table-closures-capture-values"}, Level: "proof", Explanation: "Ownership and poll lemmas only: instances share no mutable data (package frame, table closures capture plain values, shared tables rewritten only as private copies); abort touched only atomically. No interleaving is explored.", Assumptions: []string{"Go memory model, sync.Pool, the StateDB and the djpm global are trusted; schedules not explored"}},
 	"C18": {ID: "C18", E2: true, E1: true, Level: "proof", Explanation: "EQ over tracers/** and every EVMLogger call site in vm; unary enter/exit balance on Call.", Assumptions: []string{"encoding/json omitempty semantics"}},
 	"C19": {ID: "C19", E1: true, E2: true, Syntactic: []string{"loopvar-escape"}, Level: "proof", Explanation: "Safety sweep and tracer invariant on callTracer / flatCallTracer methods.", Assumptions: []string{"events arrive well nested (typestate preconditions)"}},
-	"C20": {ID: "C20", E1: true, E2: true, Level: "proof", Explanation: "Ghost work counter bounded by a declared constant for every flat-fee instruction.", Assumptions: []string{"per-unit costs of StateDB reads and hashing are the reference schedule's"}},
+	"C20": {ID: "C20", E1: true, E2: true, Ground: []string{"journal-table"}, Level: "proof", Explanation: "Ghost work counter bounded by a declared constant for every flat-fee instruction.", Assumptions: []string{"per-unit costs of StateDB reads and hashing are the reference schedule's"}},
 }
 
 // Order lists property ids in order.
